@@ -229,6 +229,21 @@ class Interp:
             v = self.eval(e, env, depth) if k != "call" else TOP
             if isinstance(v, bool):
                 return v
+        if r is None and k in ("bin", "op") and e.get("op") in ("==", "!=") \
+                and len(e.get("a", ())) == 2:
+            # comparison of two boolean-valued predicates
+            def boolish(x):
+                while x is not None and x.get("k") == "cast":
+                    x = x["a"][0]
+                return x is not None and (
+                    x.get("k") in ("call", "mcall")
+                    or (x.get("k") == "un" and x.get("op") == "!")
+                    or (x.get("k") == "lit" and x.get("t") == "bool"))
+            if boolish(e["a"][0]) and boolish(e["a"][1]):
+                a = self.cond(e["a"][0], env, depth)
+                b = self.cond(e["a"][1], env, depth)
+                if a is not None and b is not None:
+                    return (a == b) if e["op"] == "==" else (a != b)
         return r
 
     # ------------------------------------------------------------ control
